@@ -27,9 +27,9 @@ EXPLANATION = (
     'memory geometry/calibration field order and formats agree, SIZE_* constants equal the summed calcsize, page addressing identical '
     'for read and write; R6 YAML: as_file_object keys = from_file_object keys with key<->attribute agreement, envelope keys/type/version '
     'written = compared on read (lighthouse and parameter files); R7 deck info section: 0x20 = 2 + calcsize(<LLL18s), masks are distinct '
-    'single bits, info offsets; loco anchors: <fff? = page length, id list = 1 + max; the deck name extraction is total for an unterminated 18-byte field; R8 LED timing image: record layout, flags byte, terminator, and no all-zero record before the terminator (shared with C13.R5); trajectory pieces are covered in C13.R4.')
+    'single bits, info offsets; loco anchors: <fff? = page length, id list = 1 + max; the deck name extraction is total for an unterminated 18-byte field; R8 LED timing image: record layout, flags byte, terminator, and no all-zero record before the terminator (shared with C13.R5); R9 trajectory images: units, unmasked int16 packing, type codes, layouts (shared with C13.R4).')
 ASSUMPTIONS = ['crc32/checksum functions are correct; only which bytes they cover and which byte they are compared with is decided']
-FLOORS = {'R1': 9, 'R2': 8, 'R3': 7, 'R4': 3, 'R5': 12, 'R6': 12, 'R7': 11, 'R8': 4}
+FLOORS = {'R1': 9, 'R2': 8, 'R3': 7, 'R4': 3, 'R5': 12, 'R6': 12, 'R7': 11, 'R8': 4, 'R9': 8}
 
 
 def packs(func):
@@ -317,6 +317,10 @@ def check(ctx):
     # =========================== R8: write-only LED timing image (shared with C13.R5) ==========
     from .c13 import led_timing_rules
     led_timing_rules(ctx, 'R8')
+
+    # =========================== R9: write-only trajectory images (shared with C13.R4) ==========
+    from .c13 import trajectory_rules
+    trajectory_rules(ctx, 'R9')
 
     # =========================== R7: deck info / loco ============================================
     D = m.cls(DK, 'DeckMemory')
